@@ -48,6 +48,12 @@ TABLE = {
 }
 
 
+# reasoned exceptions of the indexing rule, exact keys: function | shape of the index
+SLICE_TABLE = {
+    "write_camel_case|0": "response header NAMES come from the application, not from the peer; `buffer` was just initialised from `value` (same length by the function's safety contract) and this line runs only after `value.iter().next()` returned Some, so it is non-empty",
+}
+
+
 def tainted(b, e):
     if e_calls(e, WIRE):
         return True
@@ -222,8 +228,64 @@ def run(ck, prog, tier, load):
     ck.anchor("C19-a", n_sub, 6, "overflow-checked subtractions in peer-facing parsing code")
     ck.anchor("C19-a", n_add, 2, "overflow-checked additions/multiplications on wire integers")
 
-    # ---- (c) fixed-offset slicing of peer data is length-guarded ------------------------------
     n_sl = n_skip = 0
+    def eval_site(b, bb, fn, recv, idx, X, k):
+        nonlocal n_sl, n_skip
+        def enough(c, lab, X=X, k=k, recv=recv):
+            if not isinstance(lab, bool):
+                return False
+            n = norm_cmp(c, lab)
+            if not n:
+                # `!x.is_empty()` establishes len >= 1
+                c2, tr = strip_not(c, True)
+                if X is None and k <= 1 and c2[0] == "call" and rx(r"is_empty$").search(c2[1] or "") and c2[2] and same_obj(core_of(c2[2][0]), recv):
+                    return (lab if tr else not lab) is False
+                return False
+            op, p_, q_, truth = n
+            p_, q_ = strip(p_), strip(q_)
+            def is_len(e):
+                cs = e_calls(e, r"::len$")
+                return bool(cs) and any(same_obj(core_of(c_[2][0]), recv) for c_ in cs if c_[2])
+            def off(e):
+                """(X', k') for e == X' + k' or const k'"""
+                if e[0] == "const" and e[2] is not None:
+                    return None, e[2]
+                if e[0] == "place" and e[1][0] == "bin" and e[1][1] in ("Add", "AddWithOverflow"):
+                    r_ = strip(e[1][3])
+                    if r_[0] == "const" and r_[2] is not None:
+                        x2, k2 = off(strip(e[1][2]))
+                        return (strip(e[1][2]) if x2 is None and k2 == 0 else x2), k2 + r_[2]
+                return e, 0
+            # forms:  X+k' <= len (true) ; !(len < X+k') ; !(len <= X+k'-1) ; X+k'-1 < len
+            if is_len(q_):
+                x2, k2 = off(p_)
+                if (X is None) == (x2 is None) and (X is None or same(x2, X)):
+                    if op == "Le" and truth is True and k2 >= k:
+                        return True
+                    if op == "Lt" and truth is True and k2 + 1 >= k:
+                        return True
+            if is_len(p_):
+                x2, k2 = off(q_)
+                if (X is None) == (x2 is None) and (X is None or same(x2, X)):
+                    if op == "Lt" and truth is False and k2 >= k:
+                        return True      # !(len < X+k2)  => len >= X+k2
+                    if op == "Le" and truth is False and k2 + 1 >= k:
+                        return True      # !(len <= X+k2) => len >= X+k2+1
+            return False
+        has_related = bool(edges_where(b, lambda c, lab: enough_related(c, lab, X, recv)))
+        if not has_related and X is not None:
+            n_skip += 1
+            return
+        why_t = SLICE_TABLE.get("%s|%s" % (fn.split("::")[-1], shape(b, strip(idx), 3)))
+        if why_t:
+            ck.ob("C19-c.slice-length-guarded", "%s|%s|%s" % (fn, canon(recv, 3), canon(idx, 3)), True, b, bb, "reasoned exception: " + why_t, nontrivial=False)
+            return
+        n_sl += 1
+        ok, wit = guarded_by(b, bb, enough)
+        ck.ob("C19-c.slice-length-guarded", "%s|%s|%s" % (fn, canon(recv, 3), canon(idx, 3)), ok, b, bb,
+              "slicing `%s[%s]` needs %s%d bytes; every path must cross a length test establishing that" % (short(recv, 2), short(idx, 3), (short(X, 2) + " + ") if X is not None else "", k), witness=b.path_lines(wit))
+
+    # ---- (c) fixed-offset slicing of peer data is length-guarded ------------------------------
     for b in sorted(prog.bodies.values(), key=lambda x: (x.file, x.lo, x.path)):
         if not b.file.endswith(FILES) or "::tests::" in b.npath or "::test::" in b.npath or b.dk in ("Const", "AssocConst", "Static"):
             continue
@@ -242,55 +304,27 @@ def run(ck, prog, tier, load):
             if X is not None and (k == 0 or strip(X)[0] == "phi"):
                 n_skip += 1     # base is a loop-carried / multi-valued variable: relation to the length is a loop invariant, not decided
                 continue
-            def enough(c, lab, X=X, k=k, recv=recv):
-                if not isinstance(lab, bool):
-                    return False
-                n = norm_cmp(c, lab)
-                if not n:
-                    # `!x.is_empty()` establishes len >= 1
-                    c2, tr = strip_not(c, True)
-                    if X is None and k <= 1 and c2[0] == "call" and rx(r"is_empty$").search(c2[1] or "") and c2[2] and same_obj(core_of(c2[2][0]), recv):
-                        return (lab if tr else not lab) is False
-                    return False
-                op, p_, q_, truth = n
-                p_, q_ = strip(p_), strip(q_)
-                def is_len(e):
-                    cs = e_calls(e, r"::len$")
-                    return bool(cs) and any(same_obj(core_of(c_[2][0]), recv) for c_ in cs if c_[2])
-                def off(e):
-                    """(X', k') for e == X' + k' or const k'"""
-                    if e[0] == "const" and e[2] is not None:
-                        return None, e[2]
-                    if e[0] == "place" and e[1][0] == "bin" and e[1][1] in ("Add", "AddWithOverflow"):
-                        r_ = strip(e[1][3])
-                        if r_[0] == "const" and r_[2] is not None:
-                            x2, k2 = off(strip(e[1][2]))
-                            return (strip(e[1][2]) if x2 is None and k2 == 0 else x2), k2 + r_[2]
-                    return e, 0
-                # forms:  X+k' <= len (true) ; !(len < X+k') ; !(len <= X+k'-1) ; X+k'-1 < len
-                if is_len(q_):
-                    x2, k2 = off(p_)
-                    if (X is None) == (x2 is None) and (X is None or same(x2, X)):
-                        if op == "Le" and truth is True and k2 >= k:
-                            return True
-                        if op == "Lt" and truth is True and k2 + 1 >= k:
-                            return True
-                if is_len(p_):
-                    x2, k2 = off(q_)
-                    if (X is None) == (x2 is None) and (X is None or same(x2, X)):
-                        if op == "Lt" and truth is False and k2 >= k:
-                            return True      # !(len < X+k2)  => len >= X+k2
-                        if op == "Le" and truth is False and k2 + 1 >= k:
-                            return True      # !(len <= X+k2) => len >= X+k2+1
-                return False
-            has_related = bool(edges_where(b, lambda c, lab: enough_related(c, lab, X, recv)))
-            if not has_related and X is not None:
-                n_skip += 1
+            eval_site(b, bb, fn, recv, idx, X, k)
+    # single-element indexing `x[c]` / `x[i + k]` (k >= 1) lowers to a BoundsCheck assert: the same obligation, one byte more
+    for b in sorted(prog.bodies.values(), key=lambda x: (x.file, x.lo, x.path)):
+        if not b.file.endswith(FILES) or "::tests::" in b.npath or "::test::" in b.npath or b.dk in ("Const", "AssocConst", "Static"):
+            continue
+        fn = "::".join(b.npath.split("::")[-2:])
+        for bb in sorted(b.live):
+            t = b.term(bb)
+            if t["k"] != "assert" or not t["msg"].startswith("BoundsCheck") or is_noise(b, bb):
                 continue
-            n_sl += 1
-            ok, wit = guarded_by(b, bb, enough)
-            ck.ob("C19-c.slice-length-guarded", "%s|%s|%s" % (fn, canon(recv, 3), canon(idx, 3)), ok, b, bb,
-                  "slicing `%s[%s]` needs %s%d bytes; every path must cross a length test establishing that" % (short(recv, 2), short(idx, 3), (short(X, 2) + " + ") if X is not None else "", k), witness=b.path_lines(wit))
+            ln_e, ix = b.op_expr(t["mops"][0], 6), b.op_expr(t["mops"][1], 6)
+            if ln_e[0] == "const":
+                continue  # fixed-size array: the index is masked/shifted into range, not a length question
+            recv = core_of(ln_e[2] if ln_e[0] == "un" else ln_e)
+            need = bound_needed(("agg", None, "x::RangeTo", (ix,), ()))
+            if need is None:
+                continue
+            X, k = need
+            if X is not None and k == 0:
+                continue  # plain loop index
+            eval_site(b, bb, fn, recv, ix, X, k + 1)
     ck.anchor("C19-c", n_sl, 3, "fixed-offset slice operations with a related length test")
     ck.note("C19-c: %d fixed-offset slice sites had no length comparison on the same base in their function and are not decided" % n_skip)
 
